@@ -145,7 +145,8 @@ theorem control_oversize_refused (w : Bytes) (c : Control) (ha : ∀ a ∈ c.avp
 theorem hide_oversize_refused (md5 : Bytes → Bytes) (a : AVP) (s : Bytes) (rv : UInt32) (lp ap : Bytes)
     (hh : a.isHidden = false) (h : 6 + a.value.length > 1023) : hide md5 a s rv lp ap = .error .panic := by
   have hp : a.payload.length + 6 - 2 > 1023 := by rw [payload_length]; omega
-  cases a <;> first | (simp [AVP.isHidden] at hh; done) | (simp only [hide]; rw [if_pos hp])
+  unfold hide
+  rw [if_neg (by simp [hh]), if_pos hp]
 
 /-! non-vacuity -/
 example : tilesControl [0x13, 0x20, 0, 20, 0, 1, 0, 2, 0, 3, 0, 4, 1, 8, 0, 0, 0, 0, 0, 1] = true := by decide
